@@ -171,8 +171,6 @@ class Env(gpp.UGenParameter, gpp.NodeParameter):
         self.release_node = release_node
         self.loop_node = loop_node
         self.offset = offset
-        self.__envgen_format = None
-        self.__interpolation_format = None
 
     # no newClear
     # no kr
@@ -680,9 +678,6 @@ class Env(gpp.UGenParameter, gpp.NodeParameter):
                 return 0
 
     def _envgen_format(self):  # Was asMultichannelArray.
-        if self.__envgen_format:  # this.array
-            return self.__envgen_format
-
         # prAsArray
         levels = gpp.ugen_param(self.levels)._as_ugen_input()
         times = gpp.ugen_param(self.times)._as_ugen_input()
@@ -707,14 +702,10 @@ class Env(gpp.UGenParameter, gpp.NodeParameter):
             contents.append(type(self)._shape_number(curves[i % len(curves)]))
             contents.append(type(self)._curve_value(curves[i % len(curves)]))
 
-        self.__envgen_format = [tuple(i) for i in utl.flop(contents)]
-        return self.__envgen_format
+        return [tuple(i) for i in utl.flop(contents)]
 
     def _interpolation_format(self):  # Was asArrayForInterpolation.
         '''This version is for IEnvGen which has a special format.'''
-        if self.__interpolation_format:
-            return self.__interpolation_format
-
         levels = gpp.ugen_param(self.levels)._as_ugen_input()
         times = gpp.ugen_param(self.times)._as_ugen_input()
         curves = gpp.ugen_param(utl.as_list(self.curves))._as_ugen_input()
@@ -735,8 +726,7 @@ class Env(gpp.UGenParameter, gpp.NodeParameter):
             contents.append(type(self)._curve_value(curves[i % len(curves)]))
             contents.append(levels[i + 1])
 
-        self.__interpolation_format = [tuple(i) for i in utl.flop(contents)]
-        return self.__interpolation_format
+        return [tuple(i) for i in utl.flop(contents)]
 
     def _at(self, time):
         data = self._envgen_format()
